@@ -1,4 +1,5 @@
 import PgsVerif.Model.Persist
+import PgsVerif.Props.C10
 import PgsVerif.Generated.Code_persister_postProcess
 /-!
 # Tie (translated code): `postProcess` of persister.go
@@ -31,6 +32,20 @@ theorem tie_postProcess (procs : List Proc) (kind : Nat) (b : Bytes) :
   unfold persister_postProcess
   simp only [id, tie_postProcess_fold]
   cases postProcess procs kind b <;> rfl
+
+/-- **C10's post-processing clause on the translated function**: processors are applied to precisely the artifacts they match, in
+    registration order, each fed what the one before handed back -/
+theorem C10_postprocess_order_translated (p : Proc) (ps : List Proc) (k : Nat) (b : Bytes) (hp : p.fails = false) :
+    persister_postProcess (p :: ps) k b =
+      if p.kinds.contains k then persister_postProcess ps k (p.apply b) else persister_postProcess ps k b := by
+  simp only [← tie_postProcess]
+  exact C10_postprocess_order p ps k b hp
+
+/-- … and a failing one that matches ends the run, whatever follows -/
+theorem C10_postprocess_fail_translated (p : Proc) (ps : List Proc) (k : Nat) (b : Bytes) (hp : p.fails = true) (hk : p.kinds.contains k = true) :
+    persister_postProcess (p :: ps) k b = .error .postProcess := by
+  rw [← tie_postProcess]
+  simp only [postProcess, hk, hp, if_true]
 
 /-- non-vacuity: a replacing processor, then an appending one; a failing one stops the run -/
 example : persister_postProcess [⟨[0], [75], false, true⟩, ⟨[0, 1], [33], false, false⟩, ⟨[1], [63], true, false⟩] 0 [97, 98]
